@@ -37,6 +37,7 @@ type stats struct {
 
 var st stats
 var allSites []string
+var mapSites []string
 
 func main() {
 	sitesOut := flag.String("sites", "", "write the site table (JSON) here")
@@ -81,7 +82,8 @@ func main() {
 	}
 	if *sitesOut != "" {
 		sort.Strings(allSites)
-		b, _ := json.Marshal(map[string]any{"sites": allSites, "stats": st})
+		sort.Strings(mapSites)
+		b, _ := json.Marshal(map[string]any{"sites": allSites, "map_sites": mapSites, "stats": st})
 		if err := os.WriteFile(*sitesOut, b, 0o644); err != nil {
 			fatal("write sites: %v", err)
 		}
@@ -286,7 +288,9 @@ func (r *rewriter) rewriteRange(c *astutil.Cursor, x *ast.RangeStmt) {
 	x.Key = ast.NewIdent("_")
 	x.Value = ast.NewIdent(kname)
 	x.Tok = token.DEFINE
-	x.X = &ast.CallExpr{Fun: sel("simrt", "MapKeys"), Args: []ast.Expr{x.X, r.site()}}
+	siteLit := r.site()
+	mapSites = append(mapSites, allSites[len(allSites)-1])
+	x.X = &ast.CallExpr{Fun: sel("simrt", "MapKeys"), Args: []ast.Expr{x.X, siteLit}}
 	r.changed = true
 	st.MapRange++
 	if hoist != nil {
